@@ -168,6 +168,29 @@ static void do_misc_crystal(void) { xrl_error *e = NULL; Crystal_Struct *c; Crys
       e = NULL; v = Bragg_angle(g, 12.0, 1, 1, 1, &e); sw_contract(F_Bragg, e, v == 0.0, isfinite(v), v == 0.0, sp_w); Crystal_Free(g); }
     (void)r1; }
   if (c) Crystal_Free(c); if (a) Crystal_ArrayFree(a);
+  /* crystal files with ONE defect and with TWO defects at once (each rejection path alone may be right and a pair of them store two errors) */
+  { static const char *files[] = {
+      "#S 14 A\n#UCELL 5 5 5 90 90 90\n#L x\n14 1 0 0 0\n#EOF\n",                                                    /* well-formed */
+      "#S 14 A\n#UCELL 5 5 5 90 90 90\n#UCELL 5 5 5 90 90 90\n#L x\n14 1 0 0 0\n",                                    /* repeated #UCELL */
+      "#S 14 A\n#UCELL 5 5 5 90 90\n#L x\n14 1 0 0 0\n",                                                              /* short #UCELL */
+      "#S 14 A\n#UCELL 5 5 5 90 90 90\n#UCELL 5 5 5 90\n#L x\n14 1 0 0 0\n",                                          /* repeated AND short */
+      "#S 14 A\n#UCELL 5 5 5 90\n#UCELL 5 5 5 90 90 90\n#L x\n14 1 0 0 0\n",                                          /* short, then a second one */
+      "#S A\n#UCELL 5 5 5 90 90\n#L x\n14 1 0 0 0\n",                                                                  /* malformed #S and short #UCELL */
+      "#S 14 A\n#L x\n14 1 0 0 0\n",                                                                                   /* no #UCELL */
+      "#S 14 A\n#UCELL 5 5 5 90 90 90\n#L x\n14 1 0 0 0\n#S 14 A\n#UCELL 5 5 5 90 90\n#L x\n14 1 0 0 0\n",           /* duplicate name AND short #UCELL in the second */
+      "#S 14 A\n#UCELL 5 5 5 90 90 90\n#L x\n14 1 x 0 0\n14 1 0 y 0\n",                                               /* two unparsable atom lines */
+      "#S 14 A\n#UCELL 5 5 5 90 90 90\n#UCELL x\n#L x\n",                                                             /* repeated+malformed and no atoms */
+      "#S 14 Si\n#UCELL 5 5 5 90 90\n#L x\n14 1 0 0 0\n" };                                                           /* built-in name and short #UCELL */
+    char path[64]; int fd, r; size_t j;
+    for (j = 0; j < sizeof files / sizeof files[0]; j++) {
+      strcpy(path, "/tmp/xv-sweep-cr-XXXXXX"); fd = mkstemp(path); if (fd < 0) break;
+      if (write(fd, files[j], strlen(files[j])) < 0) {} close(fd);
+      a = Crystal_ArrayInit(1, NULL);
+      if (a) { e = NULL; SP_LAST("Crystal_ReadFile(<generated file %d>, <user array>)", (int)j); r = Crystal_ReadFile(path, a, &e); sw_contract(F_ReadFile, e, r == 0, 1, 0, sp_w);
+        if (j > 0 && r) sw_violation("Crystal_ReadFile", "wrong-answer", "a malformed file was accepted", sp_w);
+        r = Crystal_ReadFile(path, a, NULL); Crystal_ArrayFree(a); }
+      if (j == 10) { e = NULL; SP_LAST("Crystal_ReadFile(<generated file %d>, <built-in array>)", (int)j); r = Crystal_ReadFile(path, NULL, &e); sw_contract(F_ReadFile, e, r == 0, 1, 0, sp_w); }
+      unlink(path); } }
   e = NULL;
   for (k = 0; k < (int)(sizeof ns / sizeof ns[0]); k++) { e = NULL; SP_LAST("Crystal_ArrayInit(%d)", ns[k]); a = Crystal_ArrayInit(ns[k], &e); sw_contract(F_ArrayInit, e, a == NULL, 1, 0, sp_w);
     if (a) { int n = -1; char **l; e = NULL; SP_LAST("Crystal_GetCrystalsList(<empty array>)"); l = Crystal_GetCrystalsList(a, &n, &e); sw_contract(F_CrList, e, l == NULL, 1, 0, sp_w); if (n != 0) sw_violation("Crystal_GetCrystalsList", "wrong-count", "", sp_w); free_list(l);
